@@ -23,6 +23,7 @@ func c08EnvMenu() []vx.Exp {
 		nil, // absent
 		vx.Lit("E"),
 		R("a"),
+		R("b"),
 		R("c"),
 		vx.Cat{vx.Lit("<"), R("a"), vx.Lit(">")},
 		vx.Cat{vx.Lit("<"), R("b"), vx.Lit(">")},
@@ -128,6 +129,30 @@ func c08EnvSpace() *core.Space {
 					res = core.Fail("build", "BUILD", err.Error())
 					return
 				}
+				if k.ea != nil && k.ea.Render() == k.a.Render() {
+					// the same text in both trees: both settings are copies of one source setting
+					// (defaults merged into the configuration and into its Env configuration)
+					src, err := ucfg.NewFrom(map[string]interface{}{"a": k.a.Render()}, base...)
+					if err != nil {
+						res = core.Fail("build", "BUILD", err.Error())
+						return
+					}
+					cfg, _ = ucfg.NewFrom(map[string]interface{}{"b": k.b.Render()}, base...)
+					rest := map[string]interface{}{}
+					if k.ec != nil {
+						rest["c"] = k.ec.Render()
+					}
+					envCfg, _ = ucfg.NewFrom(rest, base...)
+					if err := cfg.Merge(src, base...); err != nil {
+						res = core.Fail("build", "BUILD", err.Error())
+						return
+					}
+					if err := envCfg.Merge(src, base...); err != nil {
+						res = core.Fail("build", "BUILD", err.Error())
+						return
+					}
+					opts[len(base)] = ucfg.Env(envCfg)
+				}
 				fail := func(entry, class, detail string) {
 					res = core.Fail(entry, class+" "+entry+" (Env)", detail)
 				}
@@ -165,6 +190,10 @@ func c08EnvSpace() *core.Space {
 						anyErr = true
 						if err == nil {
 							fail("String", "ERROR-NOT-REPORTED", fmt.Sprintf("String(%q): model %v %s, impl returned %q", n, o.Kind, o.Str, s))
+							return
+						}
+						if o.Kind == vx.Missing && !o.Absorbed && reasonChainHas(err, ucfg.ErrCyclicReference) {
+							fail("String", "FALSE-CYCLE", fmt.Sprintf("String(%q): no reference is re-entered (%s cannot be resolved), impl reports a cycle: %v", n, o.Str, err))
 							return
 						}
 					}
